@@ -11,11 +11,11 @@ from curies.api import (
 # ---- spec helpers ----------------------------------------------------------------------------
 def clashU(records):
     """Two records at different positions claim the same URI prefix (canonical or synonym)."""
-    return any(not U(a).isdisjoint(U(b)) for i, a in enumerate(records) for j, b in enumerate(records) if i < j)
+    return any(not U(a).isdisjoint(U(b)) for i, a in enumerate(records) for j, b in enumerate(records) if i != j)
 
 
 def clashP(records):
-    return any(not P(a).isdisjoint(P(b)) for i, a in enumerate(records) for j, b in enumerate(records) if i < j)
+    return any(not P(a).isdisjoint(P(b)) for i, a in enumerate(records) for j, b in enumerate(records) if i != j)
 
 
 def same_members(xs, ys):
